@@ -375,6 +375,7 @@ def run_check(prop_id: str, body, argv=None):
         if ctx.violations:
             status = "violation"
             code = 1
+            ctx.violations.sort(key=lambda v: bool(v[2]))  # failing inputs first
             for i, (sig, replay, no_input) in enumerate(ctx.violations[:3]):
                 name = f"{tier}-seed{seed}-{i}"
                 replay = dict(replay)
